@@ -306,16 +306,23 @@ Lemma trimesh_batch_rows core mi me io f rows :
 Proof. reflexivity. Qed.
 
 (* ------------------------------------------------------------------ excitation attributes *)
-Lemma exc_step_sync c s a : c <> f0 -> exc_sync c (exc_step c c s a).
+Lemma exc_step_sync c s a : c <> f0 -> exc_sync c s -> exc_sync c (exc_step c c s a).
 Proof.
-  intros Hc. destruct a as [[p|]|[m|]]; cbn; try exact I; try reflexivity.
+  intros Hc Hs. destruct a as [[p|]|[m|]|]; cbn; try exact I; try reflexivity; try exact Hs.
   destruct p as [[p1 p2] p3]. vfield.
 Qed.
 
 Lemma exc_run_sync c : c <> f0 -> forall h s, exc_sync c s -> exc_sync c (exc_run c c s h).
 Proof.
   intros Hc h. induction h as [|a h IH]; intros s Hs; [exact Hs|].
-  cbn. apply IH. apply exc_step_sync. exact Hc.
+  cbn. apply IH. apply exc_step_sync; assumption.
+Qed.
+
+(* every assignment re-establishes the relation whatever the state before it *)
+Lemma exc_assign_sync c s a : c <> f0 -> a <> Observe -> exc_sync c (exc_step c c s a).
+Proof.
+  intros Hc Ha. destruct a as [[p|]|[m|]|]; cbn; try exact I; try reflexivity; [|contradiction].
+  destruct p as [[p1 p2] p3]. vfield.
 Qed.
 
 Lemma exc_init_sync c : exc_sync c exc_init.
